@@ -53,7 +53,9 @@ Markers == UNION {{M(<<l>> \o f) : f \in Formats(l)} : l \in Letters}
 RtPictures == { <<>>,
                 M(<<89,48,48,48,49>>) \o <<45>> \o M(<<77,48,49>>) \o <<45>> \o M(<<68,48,49>>) \o <<84>> \o M(<<72,48,49>>) \o <<58>> \o M(<<109,48,49>>) \o <<58>> \o M(<<115,48,49>>) \o <<46>> \o M(<<102,48,48,49>>) \o M(<<90,48,49,58,48,49>>),
                 M(<<89,48,48,48,49>>) \o M(<<77,48,49>>) \o M(<<68,48,49>>) \o <<32>> \o M(<<72,48,49>>) \o M(<<109,48,49>>) \o M(<<115,48,49>>) \o M(<<90,48,49,58,48,49>>) }
-BadPictures == { <<91, 89>>, <<89, 93>>, <<91, 93>>, <<120>>, <<91, 89, 44, 93>>, <<91, 89, 44, 48, 93>>, <<91, 89, 44, 51, 45, 50, 93>>, <<91, 91, 89, 93>>, <<91, 89, 91, 93>> }
+BadPictures == { <<91, 89, 93, 45, 91, 77, 48, 49>>, <<91, 89, 93, 91>>, <<91, 68, 49, 111, 93, 32, 91, 77, 78, 110>>, <<91, 89, 93, 32, 91, 93>>, <<91, 89, 93, 91, 120, 93>>,
+                 <<91, 89, 93, 91, 89, 44, 51, 45, 50, 93>>, <<91, 72, 93, 58, 91, 109, 93, 58, 91, 115>>,        \* a well-formed marker first, then [M01  [  [MNn  []  [x]  [Y,3-2]  [s
+                 <<91, 89>>, <<89, 93>>, <<91, 93>>, <<120>>, <<91, 89, 44, 93>>, <<91, 89, 44, 48, 93>>, <<91, 89, 44, 51, 45, 50, 93>>, <<91, 91, 89, 93>>, <<91, 89, 91, 93>> }
 BadOffsets == { <<43, 49>>, <<49, 50, 48, 48, 48>>, <<43, 49, 50, 58, 48, 48>>, <<85, 84, 67>>, <<43, 48, 97, 48, 48>>, <<45, 48, 48, 48>> }
 
 From(d, t, p, hasP, tz, hasTz) == [mode |-> "date", flags |-> [fn |-> "from", day |-> d, msod |-> t] @@ (IF hasP THEN [pic |-> p] ELSE <<>>) @@ (IF hasTz THEN [tz |-> tz] ELSE <<>>)]
@@ -74,6 +76,15 @@ Init == /\ \/ \E mk \in Markers, d \in EdgeDays, t \in SmallTimes, o \in {0, 0 -
            \/ \E z \in BadOffsets : c = From(0, 0, <<>>, FALSE, z, TRUE)
            \/ \E d \in EdgeDays, t \in EdgeTimes, sfx \in {<<90>>, <<43, 48, 49, 58, 48, 48>>, <<45, 48, 53, 51, 48>>, <<>>} : c = To(IsoText(d, t) \o sfx)
            \/ \E d \in EdgeDays : c = To(SubSeq(IsoText(d, 0), 1, 10)) \/ c = To(SubSeq(IsoText(d, 0), 1, 4))
+           \* the same calls after another call with a picture of its own was made in the process
+           \/ \E d \in {D(2018, 4, 3), D(2000, 2, 29), D(1999, 12, 31)}, t \in {0, 45296789}, sfx \in {<<90>>, <<43, 48, 49, 58, 48, 48>>, <<45, 48, 53, 51, 48>>, <<>>},
+                 w \in { \* $toMillis("2018-03-04", "[Y0001]-[D01]-[M01]")   $fromMillis(0, "[D]/[M]/[Y]")   $toMillis("04/03/2018", "[D01]/[M01]/[Y0001]")
+                         <<36,116,111,77,105,108,108,105,115,40,34,50,48,49,56,45,48,51,45,48,52,34,44,32,34,91,89,48,48,48,49,93,45,91,68,48,49,93,45,91,77,48,49,93,34,41>>,
+                         <<36,102,114,111,109,77,105,108,108,105,115,40,48,44,32,34,91,68,93,47,91,77,93,47,91,89,93,34,41>>,
+                         <<36,116,111,77,105,108,108,105,115,40,34,48,52,47,48,51,47,50,48,49,56,34,44,32,34,91,68,48,49,93,47,91,77,48,49,93,47,91,89,48,48,48,49,93,34,41>> } :
+                    \/ c = [To(IsoText(d, t) \o sfx) EXCEPT !.flags = @ @@ [warm |-> w]]
+                    \/ c = [To(SubSeq(IsoText(d, 0), 1, 10)) EXCEPT !.flags = @ @@ [warm |-> w]]
+                    \/ c = [From(d, t, <<>>, FALSE, <<43, 48, 49, 48, 48>>, TRUE) EXCEPT !.flags = @ @@ [warm |-> w]]
            \/ \E s \in {<<>>, <<120>>, <<50, 48, 49, 56, 45, 49, 51, 45, 48, 49>>, <<50, 48, 49, 56, 45, 48, 50, 45, 51, 48>>, <<50, 48, 49, 56, 45, 48, 50>>} : c = To(s)
         /\ done = FALSE
 Next == ~done /\ done' = TRUE /\ UNCHANGED c
